@@ -110,6 +110,27 @@ func init() {
 				}
 			}
 		}
+		// a stale outcome in the outcome channel across Stop + Start (single CPU)
+		for _, r := range runRounds("c16_inflight", seed, reps*4, 4) {
+			rep.Evaluations++
+			if r.Events > 0 && len(r.Violations) == 0 {
+				rep.Distinct++
+			}
+			for _, v := range r.Violations {
+				dup := false
+				for _, w := range rep.Violations {
+					if w.Sig == v.Sig {
+						dup = true
+					}
+				}
+				if !dup {
+					if v.Replay == nil {
+						v.Replay = map[string]interface{}{"steps": []string{"start", "r1 answered, its callback held at a gate", "r2 sent and answered (its outcome waits in the outcome channel)", "GOMAXPROCS(1)", "Stop", "Start", "sendAsync r3", "r3 answered", "gate released"}}
+					}
+					rep.Violations = append(rep.Violations, v)
+				}
+			}
+		}
 		// Stop while the websocket client is in its reconnection loop: no connection afterwards
 		for k := 0; k < reps; k++ {
 			rep.Evaluations++
